@@ -176,6 +176,12 @@ class C20Executor(Executor):
             return [st]
         return super().store_index(st, base, idx, v, node)
 
+    def b_setattr(self, st, args, kwargs, node):
+        """setattr(obj, "<literal>", v) is the attribute store obj.<literal> = v"""
+        if len(args) == 3 and isinstance(args[1], VStr) and args[1].const() is not None and not kwargs:
+            return [(s2, NONE) for s2 in self.store_attr(st, args[0], args[1].const(), args[2], node)]
+        return self.havoc_call(st, "setattr", args, node)
+
     def enclosing_name(self):
         f = self.cur_fn_stack[-1] if self.cur_fn_stack else None
         return getattr(f, "name", "?")
